@@ -432,6 +432,86 @@ theorem tree_paths_exist {I : Inst α} {ok : Nat → Bool} {c : Nat → α} (U :
     · exact h
   exact SearchTree.backtrack_ok hinv (Or.inr hv)
 
+/-! ### B′. The same for `UniformCostOn` (premises only on the calls the search really makes)
+
+`WF I` (positive charged cost on *every* call that answers) is a separate premise here: it cannot
+be derived from `UniformCostOn`, which only speaks about the pairs satisfying `S`.  Concrete
+configurations have it unconditionally (`Config.inst_wf`). -/
+
+open SearchOpt (UniformCostOn UniformOn VertexHOn SolOK)
+
+/-- (A2) under `UniformCostOn` every tree entry has a permitted edge and carries that edge's cost -/
+theorem tree_entries_uniform_on {I : Inst α} {S : Option Nat → List α → Prop} {ok : Nat → Bool}
+    {c hv : Nat → α} (U : UniformCostOn I S ok c) {source : Nat} {target : Option Nat}
+    (hh : target.isSome = true → VertexHOn I S hv) {sched : List Nat} {s : SState α}
+    (h : runAStar I source target sched = .ok s) :
+    ∀ v b, s.sol v = some b → ok b.edge = true ∧ b.access + b.traversal = c b.edge :=
+  fun v b hb => (SearchOpt.runAStar_solOK_on U hh h v b hb).2
+
+/-- **Route optimality** for `UniformOn` -/
+theorem route_optimal_on {I : Inst α} {S : Option Nat → List α → Prop} {ok : Nat → Bool}
+    {c hv : Nat → α} (hI : WF I) (U : UniformOn I S ok c hv)
+    {source t : Nat} (hts : t ≠ source) (hadm : Admissible I ok c hv t)
+    {sched : List Nat} {res : SearchResult α}
+    (h : runVertexOriented I source (some t) sched = .ok res) :
+    ∃ route d, res.route = some route ∧ route ≠ [] ∧
+      Walk I ok source (route.map (·.edge)) t ∧
+      (route.map (fun b => b.access + b.traversal)).sum = cost c (route.map (·.edge)) ∧
+      res.final.g t = some d ∧
+      (route.map (fun b => b.access + b.traversal)).sum = d ∧
+      ∀ es, Walk I ok source es t →
+        (route.map (fun b => b.access + b.traversal)).sum ≤ cost c es := by
+  obtain ⟨hrun, route, hr, hbt⟩ := runVertexOriented_some h
+  obtain ⟨hinv, _, route', _, hr', hne, _⟩ :=
+    SearchTree.runVertexOriented_route hI source t sched res hts h
+  rw [hr] at hr'
+  cases hr'
+  obtain ⟨d, hd, _, hmin⟩ := SearchOpt.label_optimal_on U hts hadm hrun
+  obtain ⟨hw, hsum, hsd⟩ := pathTo_optimal hinv
+    (tree_entries_uniform_on U.toUniformCostOn (hv := hv) (fun _ => U.h_eq) hrun)
+    (SearchTree.backtrack_sound hbt) hd hmin
+  exact ⟨route, d, hr, hne, hw, hsum, hd, hsd, fun es hes => hsd ▸ hmin es hes⟩
+
+/-- Dijkstra for `UniformCostOn`: whenever the heuristic answers it answers 0 -/
+theorem dijkstra_route_optimal_on {I : Inst α} {S : Option Nat → List α → Prop} {ok : Nat → Bool}
+    {c : Nat → α} (hI : WF I) (U : UniformCostOn I S ok c) (h0 : VertexHOn I S (fun _ => 0))
+    {source t : Nat} (hts : t ≠ source) {sched : List Nat} {res : SearchResult α}
+    (h : runVertexOriented I source (some t) sched = .ok res) :
+    ∃ route d, res.route = some route ∧ route ≠ [] ∧
+      Walk I ok source (route.map (·.edge)) t ∧
+      (route.map (fun b => b.access + b.traversal)).sum = cost c (route.map (·.edge)) ∧
+      res.final.g t = some d ∧
+      (route.map (fun b => b.access + b.traversal)).sum = d ∧
+      ∀ es, Walk I ok source es t →
+        (route.map (fun b => b.access + b.traversal)).sum ≤ cost c es := by
+  have U' : UniformOn I S ok c (fun _ => 0) := { U with h_eq := h0, h_nonneg := fun _ => le_refl _ }
+  exact route_optimal_on hI U' hts (fun v es _ => SearchOpt.cost_nonneg U.cost_pos es) h
+
+/-- destination-less search for `UniformCostOn` -/
+theorem tree_paths_optimal_on {I : Inst α} {S : Option Nat → List α → Prop} {ok : Nat → Bool}
+    {c : Nat → α} (hI : WF I) (U : UniformCostOn I S ok c)
+    {source : Nat} {sched : List Nat} {s : SState α}
+    (hrun : runAStar I source none sched = .ok s) {v : Nat} {r : List (Branch α)}
+    (hp : PathTo source s.sol v r) :
+    ∃ x, s.g v = some x ∧ Walk I ok source (r.map (·.edge)) v ∧
+      (r.map (fun b => b.access + b.traversal)).sum = cost c (r.map (·.edge)) ∧
+      (r.map (fun b => b.access + b.traversal)).sum = x ∧
+      ∀ es, Walk I ok source es v → (r.map (fun b => b.access + b.traversal)).sum ≤ cost c es := by
+  have hinv : TreeInv I source s := by
+    rcases SearchTree.runAStar_treeInv hI source none sched s hrun with h0 | h
+    · cases h0.1
+    · exact h
+  have hv : v = source ∨ (s.sol v).isSome := by
+    cases hp with
+    | nil => exact Or.inl rfl
+    | snoc _ hb _ => right; rw [hb]; rfl
+  obtain ⟨x, hx⟩ := SearchTree.labelled_of_entry hinv hv
+  obtain ⟨_, hmin⟩ := SearchOpt.tree_labels_optimal_on U hrun v x hx
+  obtain ⟨hw, hsum, hsx⟩ := pathTo_optimal hinv
+    (tree_entries_uniform_on U (hv := fun _ => (0 : α)) (target := none) (fun h => by cases h) hrun)
+    hp hx hmin
+  exact ⟨x, hx, hw, hsum, hsx, fun es hes => hsx ▸ hmin es hes⟩
+
 /-! ## C. The edge-oriented wrapper `search_algorithm::run_edge_oriented` -/
 
 /-- the origin-edge element the wrapper puts in front of the route (and into a destination-less
@@ -897,6 +977,32 @@ theorem runEdge_route_optimal (c : Config α) {ok : Nat → Bool} {cst hv : Nat 
     runEdge_nonadjacent c source tgt sched r e1 e2 h1 h2 hne hnadj h
   obtain ⟨inner', d, hinner', _, hw, hsum, _, _, hmin⟩ :=
     route_optimal U (fun h => hnadj h.symm) hadm hres
+  rw [hinner] at hinner'
+  cases hinner'
+  refine ⟨_, inner, last, hroutes, rfl, hw, ?_, ?_⟩
+  · rw [wrap_cost]; exact hsum
+  · intro es hes
+    rw [wrap_cost]; exact hmin es hes
+
+/-- `runEdge_route_optimal` with the premises a concrete configuration can meet (`UniformOn`; `WF`
+holds of every configuration with consistent adjacency) -/
+theorem runEdge_route_optimal_on (c : Config α) (hadj : c.AdjConsistent)
+    {S : Option Nat → List α → Prop} {ok : Nat → Bool} {cst hv : Nat → α}
+    (U : UniformOn c.inst S ok cst hv) (source tgt : Nat) (sched : List Nat) (r : AlgResult α)
+    (e1 e2 : EdgeRec α) (h1 : c.edges[source]? = some e1) (h2 : c.edges[tgt]? = some e2)
+    (hne : source ≠ tgt) (hnadj : e1.dst ≠ e2.src)
+    (hadm : Admissible c.inst ok cst hv e2.src)
+    (h : c.runEdge source (some tgt) sched = .ok r) :
+    ∃ (route inner : List (Branch α)) (last : Branch α), r.routes = [route] ∧
+      route = originBranch c source e1 :: inner ++ [destBranch tgt e2 last.state] ∧
+      Walk c.inst ok e1.dst (inner.map (·.edge)) e2.src ∧
+      (route.map (fun b => b.access + b.traversal)).sum = cost cst (inner.map (·.edge)) ∧
+      ∀ es, Walk c.inst ok e1.dst es e2.src →
+        (route.map (fun b => b.access + b.traversal)).sum ≤ cost cst es := by
+  obtain ⟨res, inner, last, hres, hinner, _, _, _, hroutes⟩ :=
+    runEdge_nonadjacent c source tgt sched r e1 e2 h1 h2 hne hnadj h
+  obtain ⟨inner', d, hinner', _, hw, hsum, _, _, hmin⟩ :=
+    route_optimal_on (c.inst_wf hadj) U (fun h => hnadj h.symm) hadm hres
   rw [hinner] at hinner'
   cases hinner'
   refine ⟨_, inner, last, hroutes, rfl, hw, ?_, ?_⟩
